@@ -27,11 +27,18 @@ def timed(fn, seconds):
         signal.alarm(0)
 
 
+# An alarm delivered while Z3 is running can leave the interpreter's Z3 state unusable (later
+# calls raise ctypes.ArgumentError): after the first alarm the remaining calls of the session
+# are not made (reported as "timeout", unjudged) and the worker process is replaced.
+EXIT_AFTER = False
+
+
 def exc(ex):
     return "X:%s: %s" % (type(ex).__name__, str(ex)[:120])
 
 
 def run(task):
+    global EXIT_AFTER
     random.seed(task.get("seed", 0))
     g = pj.json_to_grammar(task["g"])
     DerivationTree.next_id = 100000
@@ -74,6 +81,10 @@ def run(task):
         rows.append(r)
     for k in task["repair_trees"]:
         r = {"op": "Repair", "t": k + 1, "s": [], "tree": {}, "res": ""}
+        if EXIT_AFTER:
+            r["res"] = "timeout"
+            rows.append(r)
+            continue
         try:
             res = timed(lambda: solver.repair(trees[k], fix_timeout_seconds=task.get("fix_timeout", 2)), task.get("op_cap", 25))
             if isinstance(res, Some):
@@ -83,6 +94,7 @@ def run(task):
                 r["res"] = "nothing"
         except Alarm:
             r["res"] = "timeout"
+            EXIT_AFTER = True
         except BaseException as ex:
             if isinstance(ex, (KeyboardInterrupt, SystemExit)):
                 raise
@@ -90,6 +102,10 @@ def run(task):
         rows.append(r)
     for k in task["mutate_trees"]:
         r = {"op": "Mutate", "t": k + 1, "s": [], "tree": {}, "res": ""}
+        if EXIT_AFTER:
+            r["res"] = "timeout"
+            rows.append(r)
+            continue
         try:
             res = timed(lambda: solver.mutate(trees[k], min_mutations=task.get("min_mut", 1), max_mutations=task.get("max_mut", 3), fix_timeout_seconds=1),
                         task.get("op_cap", 25))
@@ -97,6 +113,7 @@ def run(task):
             r["tree"] = pj.tree_to_json(res)
         except Alarm:
             r["res"] = "timeout"
+            EXIT_AFTER = True
         except BaseException as ex:
             if isinstance(ex, (KeyboardInterrupt, SystemExit)):
                 raise
